@@ -133,3 +133,12 @@ claim("C16", "DESIGN.md 5/C16",
       "the dump section must be the default-format dump of all bytes (lossless by C13), followed by exactly the non-zero "
       "fields in order with contiguous offsets, zero-padded to the field width, stopping at the first field that does "
       "not fit; and the same header path serving another table on the next call.")
+
+claim("C15", "DESIGN.md 5/C15",
+      "TraceEntry.read is executed for data lengths 0..12 and 1020..1026 with the length field, the trailing size word "
+      "and the number of bytes missing at the end of the stream symbolic (accepted iff length <= 1024, everything fits "
+      "and the size word equals the actual size; consumed bytes and data exact); TraceBuffer.read / parse_trace_data with "
+      "the header's size field, version, wrap count and component symbolic and a second entry with a symbolic trailer; "
+      "the string choice (exact, last partial modulo 100000 with warning and dump, none with notice and dump, binary "
+      "entries) for all 32-bit hashes against a synthetic string file, and against two different files in one process; "
+      "argument extraction for 0..5 words with %-mismatch fall-back; inputs shorter than a header are dumped losslessly.")
